@@ -325,6 +325,39 @@ def check_user_errors(F, run):
                       "the Result of the %s call is not propagated with `?` (found under %s): a user error could be dropped"
                       % ("user derivative" if is_user else "residual closure", parents[-1].get("k") + (":" + parents[-1].get("name", "") if parents else "")),
                       sample="%s: %s" % (F.loc(b, n), pp(parents[-1])[:90] if parents else ""))
+    # helpers that (transitively) evaluate the user derivative return its error inside their own Result: every call of
+    # such a helper must hand the error on unchanged (`?` directly; no map_err that replaces it, no ok()/unwrap_or)
+    carriers = set()
+    changed = True
+    ivp_bodies = [b for b in F.bodies if b["file"].startswith("src/ivp") and b["name"] not in ("step", "next", "solve")]
+    while changed:
+        changed = False
+        for b in ivp_bodies:
+            if b["name"] in carriers:
+                continue
+            hit = False
+            for n in walk(b["body"]):
+                if n.get("k") == "Call" and "ovl" in n and ((place(n["f"]) or "").endswith(".derivative") or (place(n["f"]) or "") == "g"):
+                    hit = True
+                if n.get("k") == "MCall" and n["name"] in carriers and place(n["recv"]) == "self":
+                    hit = True
+            if hit and "Result<" in (b.get("output") or ""):
+                carriers.add(b["name"])
+                changed = True
+    n_helper = 0
+    for b in F.bodies:
+        if not b["file"].startswith("src/ivp"):
+            continue
+        for n, parents in walk_with_parents(b["body"]):
+            if n.get("k") == "MCall" and n["name"] in carriers and place(n["recv"]) == "self":
+                n_helper += 1
+                par = parents[-1] if parents else {}
+                ok = par.get("k") == "Try" and par["e"] is n
+                run.check(ok, "R6.5", b["path"], "helper-error-propagated:%s" % n["name"], F.loc(b, n),
+                          "the Result of `%s` (which carries errors of the user's derivative) is not propagated with `?` unchanged (found under %s%s): "
+                          "a user error can be dropped or replaced by another error" % (n["name"], par.get("k"), ":" + par.get("name", "") if par.get("name") else ""),
+                          sample="%s: self.%s(..)?" % (b["name"], n["name"]))
+    run.floor("R6.5", "ivp", "calls of helpers that carry user errors", n_helper, 7)
     run.floor("R6.5", "ivp", "calls of the user derivative", n_calls, 15)
     run.floor("R6.5", "ivp::bdf", "calls of the residual closure", n_g, 4)
     run.call_sites += n_calls + n_g
